@@ -543,6 +543,8 @@ pub fn run(ctx: &mut Ctx) {
     ctx.extra.insert("history_cases".into(), json!(hist_cases));
     // comment ranges come from the lexer's idea of where a comment ends: exhaustive differential sweep
     crate::lexseg::run_into(ctx, if thorough { 7 } else { 6 });
+    // what the preprocessor blanks is no lexeme, what it leaves is: description blocks against a reference blanking
+    crate::oscat::run_into(ctx, if thorough { 7 } else { 6 });
 
     // stdio conformance: a systematic subset of the documents through the real binary
     let stride = if thorough { 97 } else { 7 };
@@ -568,13 +570,90 @@ pub fn run(ctx: &mut Ctx) {
             }
         })
         .collect();
-    let mut replays = 0;
+    let mut replays: u64 = 0;
     for (k, c) in conf.into_iter().enumerate() {
         replays += 1;
         if let Some(m) = c {
             let v = subset[k];
             ctx.fail(&key_for(v, "binary-differs-from-in-process"), &m, json!({"mode":"doc","doc":v.doc,"label":v.label,"site":v.site,"valid":v.valid,"text":v.spelled.text}));
         }
+    }
+    // a client with a workspace folder: the real binary initialised with a folder that holds (or not) a copy of the
+    // document with the same or another text; the tokens are those of the text the client sent, not of the disk
+    {
+        let scratch = crate::util::Scratch::new("c15ws");
+        let docs = corpus::docs();
+        let buffers: Vec<String> = docs.iter().map(|d| spell(&d.lx.v).text).collect();
+        let disk_kinds = ["no-copy-on-disk", "same-text-on-disk", "another-program-on-disk", "text-that-is-no-program-on-disk", "the-first-half-on-disk", "commented-copy-on-disk"];
+        let firsts = ["didOpen", "didChange-without-open", "didOpen-then-didChange-to-another-text"];
+        let mut jobs = vec![];
+        for b in 0..buffers.len() {
+            for dk in 0..disk_kinds.len() {
+                for f in 0..firsts.len() {
+                    for others in [false, true] {
+                        jobs.push((b, dk, f, others));
+                    }
+                }
+            }
+        }
+        let res: Vec<Option<String>> = jobs
+            .par_iter()
+            .enumerate()
+            .map(|(n, (b, dk, f, others))| {
+                let dir = scratch.sub(&format!("w{}", n));
+                let text = &buffers[*b];
+                let disk: Option<String> = match *dk {
+                    0 => None,
+                    1 => Some(text.clone()),
+                    2 => Some("PROGRAM p\nEND_PROGRAM\n".to_string()),
+                    3 => Some("? ? ?".to_string()),
+                    4 => Some(text[..text.len() / 2].to_string()),
+                    _ => Some(format!("(* draft *) {}", text)),
+                };
+                if let Some(d) = &disk {
+                    std::fs::write(dir.join("doc.st"), d).unwrap();
+                }
+                if *others {
+                    std::fs::write(dir.join("other.st"), "FUNCTION_BLOCK Unrelated VAR n : INT ; END_VAR n := 1 ; END_FUNCTION_BLOCK\n").unwrap();
+                    std::fs::write(dir.join("zz.st"), "?").unwrap();
+                }
+                let uri = format!("file://{}", dir.join("doc.st").to_string_lossy());
+                let params = json!({"capabilities":{}, "workspaceFolders":[{"uri": format!("file://{}", dir.to_string_lossy()), "name":"w"}]});
+                let mut srv = match StdioSrv::with_init(&[], &params) {
+                    Ok(s) => s,
+                    Err(e) => return Some(format!("machinery: {}", e)),
+                };
+                let other_text = &buffers[(*b + 1) % buffers.len()];
+                let (msgs, current): (Vec<Value>, &String) = match *f {
+                    0 => (vec![did_open(&uri, 1, text)], text),
+                    1 => (vec![did_change(&uri, 1, &[text.as_str()])], text),
+                    _ => (vec![did_open(&uri, 1, text), did_change(&uri, 2, &[other_text.as_str()])], other_text),
+                };
+                for m in &msgs {
+                    let o = srv.step(m);
+                    if o.status != Status::Alive {
+                        return Some(format!("server {:?}", o.status));
+                    }
+                }
+                let got = request_tokens(&mut srv, &uri, 50);
+                let _ = Box::new(srv).finish();
+                let want = tokens_for(current);
+                if got == want {
+                    None
+                } else {
+                    Some(format!("tokens {:?}, the tokens of the text the client sent are {:?}", got.map(|v| crate::util::short(&v.to_string(), 80)), want.map(|v| crate::util::short(&v.to_string(), 80))))
+                }
+            })
+            .collect();
+        for ((b, dk, f, others), r) in jobs.iter().zip(res.iter()) {
+            replays += 1;
+            ctx.evaluations += 1;
+            ctx.distinct(&format!("workspace|{}|{}|{}|{}", b, dk, f, others));
+            if let Some(m) = r {
+                ctx.fail(&format!("workspace/tokens-are-not-those-of-the-document/{}/{}", disk_kinds[*dk], firsts[*f]), &format!("document {}, {}, {}{}: {}", docs[*b].name, disk_kinds[*dk], firsts[*f], if *others { ", other files in the folder" } else { "" }, m), json!({"mode":"workspace","doc":docs[*b].name,"disk":disk_kinds[*dk],"first":firsts[*f],"others":others}));
+            }
+        }
+        ctx.bounds.insert("workspaces".into(), json!(format!("{} documents x {:?} x {:?} x {{alone, beside other files}} on the real binary", buffers.len(), disk_kinds, firsts)));
     }
     ctx.traces = replays;
     ctx.extra.insert("stdio_replays".into(), json!(replays));
@@ -608,6 +687,7 @@ pub fn replay(case: &Value) -> Result<String, String> {
             }
         }
         Some("lexical-structure") => crate::lexseg::replay(case["text"].as_str().ok_or("text")?),
+        Some("description-blocks") => crate::oscat::replay(case["text"].as_str().ok_or("text")?),
         Some("history") => {
             let (t1, t2) = (case["t1"].as_str().ok_or("t1")?, case["t2"].as_str().ok_or("t2")?);
             let fresh = tokens_for(t2);
